@@ -12,3 +12,8 @@ open Cst.C04
 #print axioms node_answer_entry
 #print axioms node_entry_stable
 #print axioms node_entry_stable_impl
+#print axioms finish_returns_cache_iff_owned
+#print axioms via_faithful
+#print axioms via_routes_agree
+#print axioms with_cache_is_from_cache
+#print axioms with_interner_forgets
